@@ -1,7 +1,9 @@
 """C06 — force-field terms and coefficients of the replacement arrive intact (replace_pattern_in_structure)."""
+import copy
 import io
 import json
 import os
+import random
 from fractions import Fraction
 
 import numpy as np
@@ -27,13 +29,15 @@ RULE = ("cases: (a) synthetic — a periodic structure with 1–4 planted copies
         "atom (not shared by the documented rule: matched atom removed, pattern atom inserted) carrying pattern terms, with "
         "original terms attached to the matched atom; per term kind one of the 11 compatible table "
         "combinations (all of them for every kind in the thorough tier); replace_all, replace_fraction in {0, .1, .25, .34, .5, .75, .9, 1, 1.5}, ignore flag on/off; (b) chains — a "
-        "second replacement (search = geometry of the first replacement pattern) applied to the result of the first; "
+        "second and, in about a third of the chains, a third replacement (search = geometry of the previous replacement pattern) applied "
+        "to the very Atoms OBJECT the previous replacement returned (re-tagged in place, never rebuilt from its dump), the "
+        "LAMMPS file written from that object; "
         "(c) tagged streams for the three known findings: orphan coefficient table, zero replaced matches (fraction 0 / "
         "pattern absent: the type tables are extended all the same), chains and stars of one element whose neighbouring "
         "occurrences overlap so that one match retains an atom another removes, or retain it in different roles; chains / stars whose selected "
         "matches share some but not all REMOVED atoms, ignore flag on; "
-        "(d) the documented workflow on docs/examples (uio66.cif, atom types but no pair table, metal centre then linker, "
-        "parameterised patterns). Oracle on the in-memory result, on the LAMMPS file written by save_lmpdat and read by "
+        "(d) the documented workflow on docs/examples (uio66.cif, atom types but no pair table, metal centre then linker on "
+        "the object the first step returned, parameterised patterns). Oracle on the in-memory result, on the LAMMPS file written by save_lmpdat and read by "
         "an independent reader, and on that file re-loaded by load_lmpdat. Non-trivial = distinct input with >= 1 "
         "replaced match, a pattern term checked, an original term surviving and an original term removed or overridden.")
 
@@ -439,11 +443,14 @@ def lower_triangular(cellj):
     return c[0][1] == 0 and c[0][2] == 0 and c[1][2] == 0 and c[0][0] > 0 and c[1][1] > 0 and c[2][2] > 0
 
 
-def write_lammps(resj):
-    """the real save_lmpdat on the result; returns text or None when the cell cannot be written in this format"""
+def write_lammps(resj, obj=None):
+    """the real save_lmpdat on the result; returns text or None when the cell cannot be written in this format.
+    `obj`: the Atoms object the replacement returned, when the caller kept it — the file is then written from a deep
+    copy of THAT object (not from one rebuilt from its dump; the copy keeps the kept object untouched for the next
+    step of a chain)"""
     if not resj["atoms"] or not lower_triangular(resj.get("cell")):
         return None
-    a = core.atoms_from_json(resj)
+    a = copy.deepcopy(obj) if obj is not None else core.atoms_from_json(resj)
     f = io.StringIO()
     with core.quiet():
         a.save_lmpdat(f)
@@ -460,10 +467,101 @@ def reload_lammps(text):
         return None
 
 
-def run_real(case):
+def run_real(case, live=None, keep=False):
+    """the real replace_pattern_in_structure on one case. `live`: the LIVE Atoms object to use as the structure (the
+    object a previous replacement returned — see run_chain) instead of a fresh one built from case["s"]; `keep`: return
+    the resulting Atoms object as out["obj"]"""
     o = case["opts"]
-    return findlib.run_replace(case["s"], case["p"], case["r"], atol=o.get("atol", 0.05), fraction=o.get("fraction", 1.0),
-                               replace_all=o.get("replace_all", False), ignore=o.get("ignore", False), seed=o.get("seed", 0))
+    if live is None and not keep:
+        return findlib.run_replace(case["s"], case["p"], case["r"], atol=o.get("atol", 0.05), fraction=o.get("fraction", 1.0),
+                                   replace_all=o.get("replace_all", False), ignore=o.get("ignore", False), seed=o.get("seed", 0))
+    return run_replace_live(live, case["s"], case["p"], case["r"], atol=o.get("atol", 0.05), fraction=o.get("fraction", 1.0),
+                            replace_all=o.get("replace_all", False), ignore=o.get("ignore", False), seed=o.get("seed", 0))
+
+
+def run_replace_live(s, sj, pj, rj, atol=0.05, fraction=1.0, replace_all=False, ignore=False, seed=0):
+    """findlib.run_replace with the structure given as a live object: same recording of the matches used, same result
+    record, plus out["obj"] = the Atoms object the call returned. `sj` must be the canonical dump of `s` (`s` None:
+    a fresh object is built from `sj`)"""
+    import mofun.mofun as mm
+    if s is None:
+        s = core.atoms_from_json(sj)
+    p, r = core.atoms_from_json(pj), core.atoms_from_json(rj)
+    rec = {}
+    real_find = mm.find_pattern_in_structure
+    real_sample = random.sample
+
+    def find_wrap(*a, **k):
+        out = real_find(*a, **k)
+        rec["found"] = ([[int(i) for i in t] for t in out[0]], np.array(out[1], dtype=float).tolist(),
+                        [[float(x) for x in qq.as_quat()] for qq in out[2]])
+        return out
+
+    def sample_wrap(pop, k):
+        out = real_sample(pop, k)
+        rec["sample"] = list(out)
+        return out
+
+    mm.find_pattern_in_structure = find_wrap
+    random.sample = sample_wrap
+    random.seed(seed)
+    np.random.seed(seed % (2 ** 32))
+    try:
+        res = core.result_of(lambda: mm.replace_pattern_in_structure(
+            s, p, r, replace_fraction=fraction, atol=atol, return_num_matches=True, replace_all=replace_all,
+            ignore_atoms_should_not_be_deleted_twice=ignore))
+    finally:
+        mm.find_pattern_in_structure = real_find
+        random.sample = real_sample
+    out = {"found": rec.get("found"), "sample": rec.get("sample")}
+    if "ok" in res:
+        new, n = res["ok"]
+        out["ok"] = core.canon_atoms(new)
+        out["n"] = int(n)
+        out["obj"] = new
+    else:
+        out["err"] = res["err"]
+    out["inputs_unchanged"] = (core.same(core.canon_atoms(s), sj) is None and core.same(core.canon_atoms(p), pj) is None
+                               and core.same(core.canon_atoms(r), rj) is None)
+    if out["found"] is not None:
+        idx, pos, quats = out["found"]
+        order = out["sample"] if out["sample"] is not None else list(range(len(idx)))
+        out["used"] = [{"idx": idx[i], "pos": [[core.q(x) for x in pp] for pp in pos[i]], "quat": [core.q(x) for x in quats[i]]}
+                       for i in order]
+    return out
+
+
+# ------------------------------------------------------------------ chains on the LIVE object
+
+def retag_live(a):
+    """fresh unique positive charge tags k/64 on a live Atoms object, in place (what g.retag does on the dump): makes
+    the object a previous replacement RETURNED usable as the tagged structure of the next one. Assigning charges is
+    ordinary use of the public per-atom array; nothing else of the object is touched."""
+    a.charges[:] = [float(Fraction(i + 1, 64)) for i in range(len(a.charges))]
+    return a
+
+
+def chain_input(s0, steps, meta=None):
+    """the input of a chain: the first structure and, per step, search pattern / replacement pattern / options. Step
+    k+1 is applied to the OBJECT step k returned (re-tagged with retag_live), never to a copy rebuilt from a dump."""
+    return {"op": "replace_c06_chain", "s": s0,
+            "steps": [{"p": c["p"], "r": c["r"], "opts": c["opts"], "meta": c.get("meta", {})} for c in steps],
+            "meta": dict(meta or (steps[-1].get("meta", {}) if steps else {}), chain_steps=len(steps))}
+
+
+def run_chain(inp):
+    """re-runs a whole chain on live objects. Returns [(case, out)] per step reached (case["s"] = dump of the live
+    structure the step was applied to)."""
+    live, sj, done = None, inp["s"], []
+    for n, st in enumerate(inp["steps"]):
+        case = {"s": sj, "p": st["p"], "r": st["r"], "opts": st.get("opts", {}), "meta": st.get("meta", {})}
+        out = run_real(case, live=live, keep=True)
+        done.append((case, out))
+        if "ok" not in out:
+            break
+        live = retag_live(out["obj"])
+        sj = core.canon_atoms(live)
+    return done
 
 
 def evaluate(case, out, files=True):
@@ -478,7 +576,7 @@ def evaluate(case, out, files=True):
         fails.append(("the replacement modified one of its inputs", None, []))
     if files and not any(not set(t) & set(KNOWN_TAGS) for _, _, t in fails):
         try:
-            text = write_lammps(res)
+            text = write_lammps(res, obj=out.get("obj"))
         except Exception as e:  # noqa
             text = None
             fails.append(("save_lmpdat raised %s on the result" % type(e).__name__, None, []))
@@ -546,11 +644,13 @@ class Batch:
         self.ctx, self.oracle_only = ctx, oracle_only
         self.ops, self.impls, self.inps, self.cells = [], [], [], []
 
-    def do(self, case, files=True):
-        """run the real code on `case`, evaluate the oracles, queue the model op. Returns the real outcome."""
+    def do(self, case, files=True, live=None, keep=False, inp=None):
+        """run the real code on `case`, evaluate the oracles, queue the model op. Returns the real outcome.
+        `live` / `keep`: see run_real; `inp`: the input to record for this case when it is a step of a chain (the whole
+        chain from its first structure: chain_input), default the case itself."""
         ctx = self.ctx
-        out = run_real(case)
-        inp = case_input(case)
+        out = run_real(case, live=live, keep=keep)
+        inp = inp or case_input(case)
         fails, stats, nviews = evaluate(case, out, files=files)
         meta = case.get("meta", {})
         nontrivial = bool(stats and stats["matches"] and stats["pattern_terms"] and stats["old_kept"]
@@ -638,14 +738,18 @@ def cif_case(sj, search, repl, step):
 
 
 def cif_workflow(batch, steps=None):
+    """every step is applied to the OBJECT the previous step returned (as a user's script does)"""
     sj = tagged_from_file("uio66.cif")
+    s0, live, cases = sj, None, []
     for n, (search, repl) in enumerate(steps or cif_steps()):
         case = cif_case(sj, search, repl, n + 1)
-        out = batch.do(case, files=True)
+        cases.append(case)
+        out = batch.do(case, files=True, live=live, keep=True, inp=chain_input(s0, cases) if n else None)
         batch.ctx.count("cif-workflow-step")
         if "ok" not in out:
             break
-        sj = g.retag(out["ok"])
+        live = retag_live(out["obj"])
+        sj = core.canon_atoms(live)
 
 
 # ------------------------------------------------------------------ streams
@@ -726,22 +830,47 @@ def run(ctx, oracle_only=False):
     nrand = ctx.n(450, 4000)
     nchain = ctx.n(60, 500)
     todo = [("combo", c) for c in combos] + [("rand", None)] * nrand
-    firsts = []
+    firsts, nfirst = [], 0
     for i, (kind, c) in enumerate(todo):
         case = g.synthetic_case(rng, combos=c, big=(ctx.tier == "thorough"))
-        out = batch.do(case)
-        if "ok" in out and out.get("n", 0) > 0 and len(case["r"]["atoms"]) > 0 and len(firsts) < nchain:
-            firsts.append((case, out["ok"]))
+        want = nfirst < nchain
+        out = batch.do(case, keep=want)
+        if want and "ok" in out and out.get("n", 0) > 0 and len(case["r"]["atoms"]) > 0:
+            firsts.append((case, out))
+            nfirst += 1
+        if len(firsts) >= 20:
+            live_chains(batch, firsts)
+            firsts = []
+            if oracle_only and unknown_failure(ctx):
+                return
         if len(batch.ops) >= 400:
             batch.flush()
-    # chains: a second replacement on the result of the first
-    for case, res1 in firsts:
-        second = g.chained_second(rng, case, res1)
-        if second is None:
-            continue
-        batch.do(second)
-        ctx.count("chain-second-step")
+    live_chains(batch, firsts)
     batch.flush()
+
+
+def unknown_failure(ctx):
+    return any(not set(f.get("tags", [])) & set(KNOWN_TAGS) for f in ctx.failures)
+
+
+def live_chains(batch, firsts):
+    """chains: a second (and in about a third of the chains a third) replacement applied to the OBJECT the previous
+    replacement returned — re-tagged in place, not rebuilt from its dump —, as in the documented 'metal centre, then
+    linker' workflow. Each step is judged by the single-step oracle against the dump of the live object it was given."""
+    ctx, rng = batch.ctx, batch.ctx.rng
+    for case, out in firsts:
+        s0, cases, sides = case["s"], [case], ["t", "u"]
+        for depth in range(2 if rng.random() < 0.65 else 3)[1:]:
+            live = retag_live(out["obj"])
+            sj = core.canon_atoms(live)
+            nxt = g.chained_second(rng, cases[-1], sj, side=sides[depth - 1], step=depth + 1)
+            if nxt is None:
+                break
+            cases.append(nxt)
+            out = batch.do(nxt, live=live, keep=True, inp=chain_input(s0, cases))
+            ctx.count("chain-step-%d-on-live-object" % (depth + 1))
+            if not ("ok" in out and out.get("n", 0) > 0 and len(nxt["r"]["atoms"]) > 0):
+                break
 
 
 def search(ctx):
@@ -755,6 +884,16 @@ def search(ctx):
 
 
 def replay(ctx, rec):
+    inp = rec["input"] if "input" in rec else rec
+    if inp.get("op") == "replace_c06_chain":
+        # a chain passes through steps that may show a KNOWN finding on the way (e.g. the CIF workflow's pair table):
+        # unless the record itself is about a known finding, only failures not attributed to one count
+        about_known = bool(set(rec.get("tags") or []) & set(KNOWN_TAGS))
+        for case, out in run_chain(inp):
+            fails, _, _ = evaluate(case, out)
+            if any(about_known or not set(t) & set(KNOWN_TAGS) for _, _, t in fails):
+                return False
+        return True
     case = case_of_record(rec)
     out = run_real(case)
     fails, _, _ = evaluate(case, out)
